@@ -581,32 +581,43 @@ impl Hooks for H {
             }
         });
     }
-    fn reclaim(&self, ptr: usize, size: usize, align: usize) -> bool {
+    fn reclaim(&self, ptr: usize, _size: usize, _align: usize) -> bool {
+        // take the block over; it counts as freed only once its destructor has run
         mem_with(|m| {
             m.n_reclaim += 1;
             m.live.remove(&ptr);
             m.retired.remove(&ptr);
-            m.freed.insert(
-                ptr,
-                Quarantined {
-                    size,
-                    align,
-                    snapshot: Vec::new(),
-                    have_snapshot: false,
-                },
-            );
             true
         })
         .unwrap_or(false)
     }
-    fn reclaimed(&self, ptr: usize, size: usize, _align: usize) {
+    fn reclaimed(&self, ptr: usize, size: usize, align: usize) {
         // the destructor has run: remember the bytes, any later change is a write after free
         let snap = unsafe { std::slice::from_raw_parts(ptr as *const u8, size) }.to_vec();
         let mut g = MEM.lock().unwrap();
-        if let Some(m) = g.as_mut() {
-            if let Some(q) = m.freed.get_mut(&ptr) {
-                q.snapshot = snap;
-                q.have_snapshot = true;
+        match g.as_mut() {
+            Some(m) if MEM_ON.load(Ordering::SeqCst) => {
+                m.freed.insert(
+                    ptr,
+                    Quarantined {
+                        size,
+                        align,
+                        snapshot: snap,
+                        have_snapshot: true,
+                    },
+                );
+            }
+            _ => {
+                // tracking ended between reclaim() and now: give the block back
+                drop(g);
+                if size > 0 {
+                    unsafe {
+                        std::alloc::dealloc(
+                            ptr as *mut u8,
+                            std::alloc::Layout::from_size_align_unchecked(size, align),
+                        )
+                    };
+                }
             }
         }
     }
